@@ -141,6 +141,13 @@ pub fn field_layer(t: &mut Tally, seed: u64) {
     multi_limb::<W4fr>(t, "derive N=4 BLS12-381 Fr", &mut rng);
     multi_limb::<W4secp>(t, "derive N=4 secp256k1 Fq", &mut rng);
     multi_limb::<W6fq>(t, "derive N=6 BLS12-381 Fq", &mut rng);
+    // hand-written configurations: the trait DEFAULT bodies (no generated override)
+    multi_limb::<H1>(t, "trait defaults N=1 p=2^64-59", &mut rng);
+    multi_limb::<H2ns>(t, "trait defaults N=2 no spare bit", &mut rng);
+    multi_limb::<H2sp>(t, "trait defaults N=2 spare bit", &mut rng);
+    multi_limb::<H2s2>(t, "trait defaults N=2 two spare bits", &mut rng);
+    multi_limb::<H3ns>(t, "trait defaults N=3 p=2^192-237", &mut rng);
+    multi_limb::<H4secp>(t, "trait defaults N=4 secp256k1 Fq", &mut rng);
 }
 
 /// structured operands (limbs from {0, 1, 2^63, 2^64-2, 2^64-1, ...} reduced mod p, values next to 0 and p, seeded random ones):
